@@ -25,7 +25,7 @@ theorem rinv_rmUpdateValue {st : St} (h : RInv st) {m : Nat} {old new : Val}
     RInv (rmUpdateValue st m old new).1 ∧
     ∀ σ ∈ st.specs, ∃ τ ∈ (rmUpdateValue st m old new).1.specs, τ.sid = σ.sid := by
   have hsid : SidOK (sp (rmUpdateValue st m old new).1) :=
-    sidOK_strans (strans_rmUpdateValue st m old new) h.sid
+    sidOK_strans (Q := fun _ _ => True) (strans_rmUpdateValue st m old new) h.sid
   unfold rmUpdateValue at hsid ⊢
   cases hl : alookup st.v2r (m, old) with
   | none => exact ⟨h, fun σ hσ => ⟨σ, hσ, rfl⟩⟩
@@ -160,7 +160,7 @@ theorem rinv_withSpec {st : St} (h : RInv st) {m : Nat} {path : String} {csv : B
     (hc : canAdd (ioSpecs st.specs m path) sheet = true) :
     RInvX (· = mkSpec st m path csv sheet data) (withSpec st (mkSpec st m path csv sheet data)) := by
   have hsid : SidOK (sp (withSpec st (mkSpec st m path csv sheet data))) :=
-    sidOK_strans (STrans.add st.specs st.nextSid m path csv sheet data hc) h.sid
+    sidOK_strans (Q := fun _ _ => True) (STrans.add st.specs st.nextSid m path csv sheet data hc trivial) h.sid
   refine ⟨h.ridLt, h.refKey, h.entry, h.keys, ?_, ?_, ?_, hsid⟩
   · intro σ hσ hne
     have : σ ∈ insertSpec st.specs (mkSpec st m path csv sheet data) := hσ
@@ -212,7 +212,7 @@ theorem newPandas_spec {kw : List String} {st : St} (h : RInv st) {o : Owner} {n
         ∀ r ∈ (newPandas kw st o n path csv sheet data).1.refs,
           ¬ (r.owner.model = σ.group ∧ r.val = σ.val)) := by
   have hsid : SidOK (sp (newPandas kw st o n path csv sheet data).1) :=
-    sidOK_strans (strans_newPandas kw st o n path csv sheet data) h.sid
+    sidOK_strans (Q := fun _ _ => True) (strans_newPandas kw st o n path csv sheet data trivial) h.sid
   have hk2' : getSpecFromValue st o.model data = none := by
     simpa [trigDoubleSpec] using hk2
   unfold newPandas at hsid ⊢
@@ -368,7 +368,7 @@ theorem delAttr_spec {st : St} (h : RInv st) {o : Owner} {n : String}
 theorem rinv_setSheet {st : St} (h : RInv st) (m : Nat) (v : Val) (sh : Option String) :
     RInv (setSheet st m v sh).1 ∧ ∀ σ ∈ st.specs, ∃ τ ∈ (setSheet st m v sh).1.specs, τ.sid = σ.sid := by
   have hsid : SidOK (sp (setSheet st m v sh).1) :=
-    sidOK_strans (strans_setSheet st m v sh) h.sid
+    sidOK_strans (Q := fun _ _ => True) (strans_setSheet st m v sh) h.sid
   unfold setSheet at hsid ⊢
   split
   · exact ⟨h, fun σ hσ => ⟨σ, hσ, rfl⟩⟩
@@ -396,9 +396,54 @@ theorem rinv_setSheet {st : St} (h : RInv st) (m : Nat) (v : Val) (sh : Option S
         exact ⟨setSheetMap σ0.sid sh σ, List.mem_map.mpr ⟨σ, hσ, rfl⟩, by simp⟩
     · exact ⟨h, fun σ hσ => ⟨σ, hσ, rfl⟩⟩
 
+/-- the path setter moves specs, it neither creates nor removes one -/
+theorem rinv_setPath {st : St} (h : RInv st) (m : Nat) (v : Val) (path : String) :
+    RInv (setPath st m v path).1 ∧ ∀ σ ∈ st.specs, ∃ τ ∈ (setPath st m v path).1.specs, τ.sid = σ.sid := by
+  have hsid : SidOK (sp (setPath st m v path).1) :=
+    sidOK_strans (Q := fun _ _ => True) (strans_setPath st m v path (fun _ _ => trivial)) h.sid
+  unfold setPath at hsid ⊢
+  split
+  · exact ⟨h, fun σ hσ => ⟨σ, hσ, rfl⟩⟩
+  · rename_i σ0 hg
+    simp only [hg] at hsid
+    split
+    · exact ⟨h, fun σ hσ => ⟨σ, hσ, rfl⟩⟩
+    · rename_i hne
+      simp only [hne, if_false] at hsid
+      split
+      · rename_i hfree
+        simp only [hfree, if_true] at hsid
+        have hmem : ∀ τ, τ ∈ (st.specs.filter (fun τ => ¬ (τ.group = σ0.group ∧ τ.path = σ0.path)) ++
+            (ioSpecs st.specs σ0.group σ0.path).map (setPathMap σ0.group σ0.path path)) ↔
+            τ ∈ movePath st.specs σ0.group σ0.path path := fun τ => Iff.rfl
+        refine ⟨⟨h.ridLt, h.refKey, h.entry, h.keys, ?_, ?_, ?_, hsid⟩, ?_⟩
+        · intro σ hσ _
+          rcases mem_movePath.mp ((hmem σ).mp hσ) with ⟨h0, _⟩ | ⟨σ1, h1, _, _, rfl⟩
+          · exact h.specRef σ h0 id
+          · exact h.specRef σ1 h1 id
+        · intro σ hσ τ hτ hg' hv
+          rcases mem_movePath.mp ((hmem σ).mp hσ) with ⟨h0, n0⟩ | ⟨σ1, h1, g1, p1, rfl⟩ <;>
+            rcases mem_movePath.mp ((hmem τ).mp hτ) with ⟨h2, n2⟩ | ⟨τ1, h3, g3, p3, rfl⟩
+          · exact h.specVal σ h0 τ h2 hg' hv
+          · have := h.specVal σ h0 τ1 h3 hg' hv
+            subst this; exact absurd ⟨g3, p3⟩ n0
+          · have := h.specVal σ1 h1 τ h2 hg' hv
+            subst this; exact absurd ⟨g1, p1⟩ n2
+          · have := h.specVal σ1 h1 τ1 h3 hg' hv
+            subst this; rfl
+        · intro σ hσ
+          rcases mem_movePath.mp ((hmem σ).mp hσ) with ⟨h0, _⟩ | ⟨σ1, h1, _, _, rfl⟩
+          · exact h.specPandas σ h0
+          · exact h.specPandas σ1 h1
+        · intro σ hσ
+          by_cases hio : σ.group = σ0.group ∧ σ.path = σ0.path
+          · exact ⟨{ σ with path := path }, (hmem _).mpr (mem_movePath.mpr (Or.inr ⟨σ, hσ, hio.1, hio.2, rfl⟩)), rfl⟩
+          · exact ⟨σ, (hmem _).mpr (mem_movePath.mpr (Or.inl ⟨hσ, hio⟩)), rfl⟩
+      · exact ⟨h, fun σ hσ => ⟨σ, hσ, rfl⟩⟩
+
 theorem rinv_delSpecOf {st : St} (h : RInv st) (m : Nat) (v : Val) : RInv (delSpecOf st m v).1 := by
   have hsid : SidOK (sp (delSpecOf st m v).1) :=
-    sidOK_strans (strans_delSpecOf st m v) h.sid
+    sidOK_strans (Q := fun _ _ => True) (strans_delSpecOf st m v) h.sid
   unfold delSpecOf at hsid ⊢
   cases hg : getSpecFromValue st m v with
   | none => exact h
@@ -425,7 +470,7 @@ theorem foldl_delSpec_fields (l : List Spec) : ∀ st : St,
 
 theorem rinv_closeModel {st : St} (h : RInv st) (m : Nat) : RInv (closeModel st m).1 := by
   have hsid : SidOK (sp (closeModel st m).1) :=
-    sidOK_strans (strans_closeModel st m) h.sid
+    sidOK_strans (Q := fun _ _ => True) (strans_closeModel st m) h.sid
   unfold closeModel rmDelAllSpec at hsid ⊢
   cases hs : rmSpecs st m with
   | error e => simp only [hs]; exact h
